@@ -34,6 +34,7 @@ example : lookup 17 = 177 := by decide +kernel
 /-- the byte map is a permutation of the bytes (injective on a finite set) -/
 theorem lookup_is_permutation (a b : Fin 256) : lookup a = lookup b ↔ a = b :=
   ⟨lookup_injective a b, fun h => by rw [h]⟩
+example : lookup 0 = 0 ∧ lookup 255 = 255 ∧ lookup 1 = 7 := by decide +kernel
 
 /-- every round constant's raw word is at most `2P − 2^64 = P − 2^32 + 1` (so that adding it to *any* 64-bit word
     stays below `2P`), and the raw word represents the listed value -/
@@ -124,6 +125,8 @@ example : CanonV (Vector.replicate 16 18446744069414584320 : State) := by
 theorem round_refines_spec (r : Fin 5) (s : State) (hs : CanonV s) :
     (round r s).map bfe_value = TF.Spec.Tip5.round r (s.map bfe_value) :=
   round_refines r s hs
+example : CanonV (#v[0, 1, 18446744069414584320, 4294967295, 4294967296, 5, 6, 7, 8, 9, 10, 11, 12, 13, 14, 15] : State) :=
+  (forall_mem_toList (p := fun x => x < Pn) _).mp (by decide)
 
 /-- the permutation: canonical output whose values are the specification permutation of the input values -/
 theorem permutation_refines_spec (s : State) (hs : CanonV s) :
@@ -160,6 +163,15 @@ theorem hash10_spec (v : Vector Nat 10) (hv : CanonV v) :
   exact this
 example : CanonV (Vector.replicate 10 7 : Vector Nat 10) := by
   intro j h; rw [Vector.getElem_replicate]; decide
+/-- the last step of the vector pinned by the repository's `hash10_test_vectors`, evaluated by the kernel on the
+    model (raw words) and on the specification -/
+example :
+    let v : Vector Nat 10 := #v[941080798860502477, 15888421881075650037, 11494362724359741120, 627201255727529993,
+      4790238723037855394, 16959020643814878453, 12118009629857908438, 10239930869937551135, 6889489196156760098,
+      5774309862903741805]
+    let d : Vector Nat 5 := #v[10869784347448351760, 1853783032222938415, 6856460589287344822, 17178399545409290325,
+      7650660984651717733]
+    (hash_10 (v.map bfe_new)).map bfe_value = d ∧ TF.Spec.Tip5.hash10 v = d := by decide +kernel
 
 /-- `Tip5::hash_pair(l, r)`: canonical digest, the specification hash of `l ++ r` -/
 theorem hash_pair_spec (l r : Vector Nat 5) (hl : CanonV l) (hr : CanonV r) :
@@ -170,6 +182,8 @@ theorem hash_pair_spec (l r : Vector Nat 5) (hl : CanonV l) (hr : CanonV r) :
   have := hash_pair_refines _ _ cl cr
   rw [el, er] at this
   exact this
+example : CanonV (#v[0, 1, 18446744069414584320, 4294967295, 4294967296] : Vector Nat 5) :=
+  (forall_mem_toList (p := fun x => x < Pn) _).mp (by decide)
 
 /-- `Digest::hash(d) = hash_pair(d, 0)` -/
 theorem digest_hash_spec (d : Vector Nat 5) (hd : CanonV d) :
